@@ -132,6 +132,16 @@ CLAIMED = {
             'mvalue_to_slots/m_to_freq round-trip exactly in binary64 for |n|<=4096, m<=512.',
             'slot numbers within [-3,3] (quick) / [-6,6]; band edges on the 6.25 GHz grid; 3 ROADM sites; z3, cvc5, symx trusted',
             'DESIGN.md §2 C15'),
+    'C17': ('symx',
+            'bounded symbolic execution of the real export/reload/completion code with z3 (export rounding modelled exactly); real '
+            'design pipeline executed twice / through export-reload on a shape grammar; models replayed on the float code',
+            'Edfa and Fiber export -> reload -> export with symbolic settings: second export equals the first and values are within the '
+            'export rounding (0 dB gain included); line-level completion -> export -> reload -> completion with symbolic lengths, user '
+            'values and library defaults: connector losses and pads unchanged (known finding: EOL re-added, see known_findings.json); '
+            'designed_network twice and through export/reload on 40 shapes and shipped examples gives identical JSON; SimParams snapshot '
+            'identical before/after auto-design with a RamanFiber for 4 user settings.',
+            'floats as reals; pipeline-level harness with concrete parameters (EOL=0); JSON passed as dicts',
+            'DESIGN.md §2 C17'),
     'C18': ('crosshair',
             'CrossHair symbolic execution (z3) of the real converters on bounded symbolic documents; counterexamples replayed '
             'un-instrumented',
